@@ -539,6 +539,8 @@ pub struct DriveOutcome {
     pub writes: Vec<(String, Vec<u8>)>,
     pub has_output: bool,
     pub iterations: Option<usize>,
+    /// the diagnostics as printed (no colours); Err = printing panicked
+    pub printed: Result<String, String>,
 }
 
 pub fn drive(fs: &mut MemFs, args: &[String]) -> Result<DriveOutcome, String> {
@@ -552,6 +554,11 @@ pub fn drive(fs: &mut MemFs, args: &[String]) -> Result<DriveOutcome, String> {
             ok: res.is_ok(),
             has_output: res.as_ref().map(|r| r.output.is_some()).unwrap_or(false),
             iterations: res.as_ref().ok().and_then(|r| r.iterations_taken),
+            printed: catch(|| {
+                let mut out = Vec::new();
+                report.print_all(&mut out, fs, false);
+                String::from_utf8_lossy(&out).to_string()
+            }),
             msgs,
             writes: fs.writes.clone(),
         }
